@@ -103,13 +103,20 @@ class G(object):
         self.lim > 0
 
 @vsc.randobj
+class Cfg(object):
+    def __init__(self):
+        self.mode = vsc.bit_t(1)
+
+@vsc.randobj
 class Top(object):
     def __init__(self, sizes):
         self.sel = vsc.bit_t(2)
         self.t = vsc.rand_bit_t(2)
         self.groups = vsc.rand_list_t(G())
+        self.cfgs = vsc.list_t(Cfg())
         for n in sizes:
             self.groups.append(G(n))
+            self.cfgs.append(Cfg())
     @vsc.constraint
     def c0(self):
 %s
@@ -127,6 +134,11 @@ NESTED_FORMS = {
           "                self.groups[i].lim < 3",
           "            with vsc.else_then:",
           "                self.groups[i].lim > 4"],
+    "D2": ["        with vsc.foreach(self.cfgs, idx=True) as i:",
+           "            with vsc.if_then(self.cfgs[i].mode == 1):",
+           "                self.groups[i].lim < 3",
+           "            with vsc.else_then:",
+           "                self.groups[i].lim > 4"],
     "E": ["        with vsc.foreach(self.groups, idx=True) as i:",
           "            with vsc.foreach(self.groups[i].members, idx=True) as j:",
           "                self.groups[i].members[j].y != j"],
@@ -138,7 +150,9 @@ NESTED_FORMS = {
 @hyp.composite
 def nested_cases(d):
     sizes = d.choice([[1, 2], [2, 1], [0, 2], [2, 0], [1, 1], [0, 3], [3, 0], [1, 0, 1], [0, 1, 1], [2, 0, 0], [0, 0, 2]])
-    forms = d.sample(["A", "B", "C", "D", "E", "F"], d.randint(1, 3))
+    forms = d.sample(["A", "B", "C", "D", "D2", "E", "F"], d.randint(1, 3))
+    if "D" in forms and "D2" in forms:
+        forms.remove("D")
     ops = [["call", d.seed()]]
     for _ in range(d.randint(1, 4)):
         r = d.randint(0, 99)
@@ -174,7 +188,7 @@ def nested_reference(case, sel, modes):
                     st.append(["expr", ["bin", case["op"], F("g%d.m%d.y" % (i, j)), F("g%d.lim" % i)]])
             elif f == "B":
                 st.append(["expr", ["bin", "!=", F("g%d.lim" % i), F("t")]])
-            elif f == "D":
+            elif f in ("D", "D2"):
                 st.append(["expr", ["bin", "<", F("g%d.lim" % i), ["lit", 3]]] if modes[i] == 1
                           else ["expr", ["bin", ">", F("g%d.lim" % i), ["lit", 4]]])
             elif f == "E":
@@ -213,6 +227,7 @@ def run_nested(case):
         modes = list(case["modes"])
         for i, m in enumerate(modes):
             top.groups[i].mode = m
+            top.cfgs[i].mode = m
         sel = 0
         top.sel = 0
     except Exception as e:
@@ -226,6 +241,7 @@ def run_nested(case):
         if op[0] == "mode":
             modes[op[1]] = op[2]
             top.groups[op[1]].mode = op[2]
+            top.cfgs[op[1]].mode = op[2]
             continue
         stmts = nested_reference(case, sel, modes)
         r = flat.enumerate_solutions(types, rf, {}, stmts, limit=1 << 15)
@@ -431,7 +447,7 @@ def body(case, acc):
 def shards(tier):
     return [{"i": i, "n": 150 if tier == "quick" else 5000} for i in range(12)] + \
         [{"kind": "subclass", "i": 0, "n": 150 if tier == "quick" else 3000}] + \
-        [{"kind": "nested", "i": i, "n": 60 if tier == "quick" else 2500} for i in range(3)]
+        [{"kind": "nested", "i": i, "n": 40 if tier == "quick" else 2500} for i in range(3)]
 
 
 def run_shard(spec, seed, tier, acc):
